@@ -172,8 +172,8 @@ impl Prop for C08 {
 
     fn profiles(tier: Tier) -> Vec<Profile> {
         match tier {
-            Tier::Quick => vec![prof("counters", 160_000), prof("same_machines", 80_000), prof("many_same", 2_000)],
-            Tier::Thorough => vec![prof("counters", 1_500_000), prof("same_machines", 700_000), prof("many_same", 25_000)],
+            Tier::Quick => vec![prof("counters", 160_000), prof("same_machines", 80_000), prof("many_same", 2_000), prof("capi", 8_000)],
+            Tier::Thorough => vec![prof("counters", 1_500_000), prof("same_machines", 700_000), prof("many_same", 25_000), prof("capi", 100_000)],
         }
     }
 
@@ -199,6 +199,7 @@ impl Prop for C08 {
             ..HistParams::default()
         };
         match profile {
+            "capi" => crate::props::capi_case(1..=3, |mp| { mp.p_counter = 0.75; mp.p_trans[9] = 0.7; mp.budgets = BudgetProfile::Unlimited; }, &hp),
             "counters" => fw_case(1..=3, &mp, &hp, false, 16),
             "same_machines" => {
                 // identical machines side by side: the same counter of several
@@ -244,6 +245,9 @@ impl Prop for C08 {
         let n = machines.len();
         if n > 64 {
             obs.hit("more_than_64_machines");
+        }
+        if case.seed == crate::props::CAPI_MARK {
+            crate::props::capi_pass(case, obs)?;
         }
         if case.machines.iter().any(|m| {
             m.states.iter().any(|st| {
